@@ -403,6 +403,13 @@ func (tc *tableCollector) collectFromNode(node ast.Node) {
 				tc.tables[from.Name] = true
 			}
 		}
+	case *ast.MergeStatement:
+		if n.TargetTable.Name != "" {
+			tc.tables[n.TargetTable.Name] = true
+		}
+		if n.SourceTable.Name != "" {
+			tc.tables[n.SourceTable.Name] = true
+		}
 	case *ast.DeleteStatement:
 		if n.TableName != "" {
 			tc.tables[n.TableName] = true
@@ -462,6 +469,13 @@ func (qtc *qualifiedTableCollector) collectFromNode(node ast.Node) {
 			if from.Name != "" {
 				qtc.addTable(from.Name)
 			}
+		}
+	case *ast.MergeStatement:
+		if n.TargetTable.Name != "" {
+			qtc.addTable(n.TargetTable.Name)
+		}
+		if n.SourceTable.Name != "" {
+			qtc.addTable(n.SourceTable.Name)
 		}
 	case *ast.DeleteStatement:
 		if n.TableName != "" {
